@@ -479,10 +479,10 @@ func (c06) satCase(t *core.T, op, n string, v model.Ver) {
 	parsable := n != "" && !strings.ContainsAny(n, " _") && n != "abc" && n != "a:1" && n != "1:" && n != "-" && n != "~1"
 	if i := strings.IndexByte(n, ':'); i > 0 {
 		// an epoch beyond 2^64-1 is "oversized" and rejected by the parser (C03), so the constraint is unparsable;
-		// for 2^63 .. 2^64-1 refusing and accepting are both fine (C03), and the parser's own verdict decides
+		// above dpkg's INT_MAX refusing and accepting are both fine (C03), and the parser's own verdict decides
 		if e, err := strconv.ParseUint(n[:i], 10, 64); err != nil {
 			parsable = false
-		} else if e > 1<<63-1 {
+		} else if e > 1<<31-1 {
 			_, perr := version.Parse(n)
 			parsable = perr == nil
 		}
